@@ -115,6 +115,7 @@ pub fn window(allow_255: bool) -> impl Strategy<Value = u8> {
             6 => prop_oneof![Just(4u8), Just(5u8), Just(8u8), Just(9u8)],
             2 => prop_oneof![Just(16u8), Just(40u8)],
             1 => Just(255u8),
+            1 => Just(0u8),
         ]
         .boxed()
     } else {
@@ -122,6 +123,7 @@ pub fn window(allow_255: bool) -> impl Strategy<Value = u8> {
             12 => 1u8..=3,
             6 => prop_oneof![Just(4u8), Just(5u8), Just(8u8), Just(9u8)],
             1 => Just(16u8),
+            1 => Just(0u8),
         ]
         .boxed()
     }
@@ -438,7 +440,9 @@ pub fn resolve_model(raw: &RawModel) -> ModelCase {
         if ngram_chars.contains(&cs) {
             continue;
         }
-        let nw = 2 * cw - cs.len() + 1;
+        // window 0: the n-grams of such a model reach no boundary (the predictor ignores them);
+        // the file format carries them all the same, with whatever weights
+        let nw = if cw == 0 { g.weights[0].unsigned_abs() as usize % 4 } else { 2 * cw - cs.len() + 1 };
         char_ngrams.push(NgramSpec {
             ngram: cs.iter().collect(),
             weights: fit_weights(&g.weights, nw, small),
@@ -461,7 +465,7 @@ pub fn resolve_model(raw: &RawModel) -> ModelCase {
         if type_ngrams.iter().any(|o| o.ngram == ts) {
             continue;
         }
-        let nw = 2 * tw - ts.len() + 1;
+        let nw = if tw == 0 { g.weights[0].unsigned_abs() as usize % 4 } else { 2 * tw - ts.len() + 1 };
         type_ngrams.push(NgramSpec {
             ngram: ts,
             weights: fit_weights(&g.weights, nw, small),
